@@ -1835,17 +1835,24 @@ class TestGraph(object):
         else:
             workers = [worker]
 
+        empty_error = None
         for i, worker in enumerate(workers):
             logging.info(f"Parsing a copy of the object trees for {worker.id}")
             # parse leaves and discover necessary setup (internal nodes)
-            leaves, stubs = TestGraph.parse_object_nodes(
-                worker,
-                restriction,
-                object_restrs=object_restrs,
-                prefix=prefix,
-                params=params,
-                verbose=verbose,
-            )
+            try:
+                leaves, stubs = TestGraph.parse_object_nodes(
+                    worker,
+                    restriction,
+                    object_restrs=object_restrs,
+                    prefix=prefix,
+                    params=params,
+                    verbose=verbose,
+                )
+            except param.EmptyCartesianProduct as error:
+                # a worker incompatible with the selection has no tests of its own
+                logging.warning(f"No tests could be parsed for {worker.id}: {error}")
+                empty_error = error
+                continue
             graph.new_nodes(leaves)
             # TODO: to make such changes more gradual at least for now reuse vms and image (<net) objects
             # (a later worker could still bring vm variants that no earlier worker supports)
@@ -1873,6 +1880,9 @@ class TestGraph(object):
                         step += 1
                         graph.visualize(parse_dir, str(step))
 
+        # the selection is only empty if no worker could parse any tests
+        if empty_error is not None and len(graph.nodes) == 0:
+            raise empty_error
         if with_shared_root:
             graph.parse_shared_root_from_object_roots(params)
         return graph
